@@ -3,11 +3,14 @@ use ruma_common::{room_version_rules::RoomVersionRules, RoomVersionId};
 use serde_json::Value;
 use vf_engine::Check;
 
+mod c06;
+mod c07;
 mod c08;
 mod c09;
 mod c20;
 mod ev;
 mod refauth;
+mod room;
 
 /// Rules for room version "1".."11", obtained through the public id -> rules mapping.
 pub fn rules_for(version: u8) -> RoomVersionRules {
@@ -43,6 +46,8 @@ fn main() {
     let id = args.first().cloned().unwrap_or_default();
     let mut ck = Check::from_env(&id, &args[1.min(args.len())..]);
     match id.as_str() {
+        "C06" => c06::run(&mut ck),
+        "C07" => c07::run(&mut ck),
         "C08" => c08::run(&mut ck),
         "C09" => c09::run(&mut ck),
         "C20" => c20::run(&mut ck),
